@@ -9,7 +9,10 @@ use identity_credential::revocation::status_list_2021::{StatusList2021, StatusLi
 use identity_credential::revocation::RevocationBitmap;
 use identity_credential::validator::{JwtCredentialValidatorUtils, StatusCheck};
 use identity_did::DIDUrl;
+use identity_credential::revocation::RevocationDocumentExt;
+use identity_document::document::CoreDocument;
 use identity_document::service::Service;
+use identity_document::utils::DIDUrlQuery;
 use vh::b64::{std_encode_nopad, std_encode_pad, url_encode};
 use vh::Rng;
 
@@ -156,6 +159,63 @@ fn feed_service(cx: &mut Cx, j: &str) {
       sweep_bitmap(cx, j, &b);
     }
   }
+}
+
+/// The same service reached the way a verifier reaches it: inside the issuer's (externally supplied) document, through
+/// the document-level resolver, the revoke/unrevoke round trip and the status check of a credential pointing at it.
+fn feed_service_in_document(cx: &mut Cx, j: &str) {
+  let dj = format!(r#"{{"id":"{}","service":[{}]}}"#, ISSUER_DID, j);
+  let i = In::S(&dj);
+  let Some(doc) = cx.ent("CoreDocument::from_json", i, || CoreDocument::from_json(&dj)) else { return };
+  cx.rep.inc("bitmap_services_in_documents");
+  let ids: Vec<String> = doc.service().iter().take(2).map(|s| s.id().to_string()).collect();
+  for id in &ids {
+    let iq = In::C(&dj, id);
+    cx.ent("CoreDocument::resolve_revocation_bitmap", iq, || doc.resolve_revocation_bitmap(DIDUrlQuery::from(id.as_str())).map(|b| b.len()));
+    cx.ent("CoreDocument::revoke_credentials", iq, || {
+      let mut c = doc.clone();
+      c.revoke_credentials(id.as_str(), &[1, 70000]).and_then(|_| c.unrevoke_credentials(id.as_str(), &[1])).map(|_| c.to_json().is_ok())
+    });
+    let st = format!(r#"{{"id":"{}","type":"RevocationBitmap2022","revocationBitmapIndex":"5"}}"#, id.replace('#', "?index=5#"));
+    if let Some(cred) = credential_with_status(&st) {
+      cx.ent("JwtCredentialValidatorUtils::check_status", iq, || JwtCredentialValidatorUtils::check_status(&cred, std::slice::from_ref(&doc), StatusCheck::Strict));
+    }
+  }
+}
+
+/// Data-URL payloads of the legacy doubly encoded form `Base64(inner)`: the library decodes the outer layer, reads the
+/// result as text and decodes that again, so `inner` — unlike the URL itself — may be ANY byte string. Returns
+/// (class, payload).
+fn layered_payloads(rb: &[u8]) -> Vec<(&'static str, String)> {
+  let good = url_encode(&zlib(rb));
+  let mut v: Vec<(&'static str, Vec<u8>)> = Vec::new();
+  // valid UTF-8 that is not base64url, multi-byte characters covering every byte offset (several total lengths)
+  for n in [48usize, 300, 1100, 4200, 20_000] {
+    for l in gen::wide_ladders("eJy", 'A', n) {
+      v.push(("wide-ladder", l.into_bytes()));
+    }
+    for l in gen::wide_ladders(&good, 'A', good.len() + n) {
+      v.push(("valid-then-wide", l.into_bytes()));
+    }
+    v.push(("ascii-garbage", format!("eJy{}", "!".repeat(n)).into_bytes()));
+    v.push(("ascii-b64std-only", format!("eJy{}", "+/".repeat(n / 2)).into_bytes()));
+    let mut bad_utf8 = b"eJy".to_vec();
+    bad_utf8.extend(std::iter::repeat(0xffu8).take(n));
+    v.push(("invalid-utf8", bad_utf8));
+    let mut cut_char = format!("eJy{}", "A".repeat(n)).into_bytes();
+    cut_char.push(0xe2);
+    v.push(("truncated-char", cut_char));
+  }
+  v.push(("valid", good.clone().into_bytes()));
+  v.push(("valid-padded", format!("{}=", good).into_bytes()));
+  v.push(("valid-newline", format!("{}\n", good).into_bytes()));
+  v.push(("nul", b"eJy\0\0\0".to_vec()));
+  v.push(("header-only", b"eJ".to_vec()));
+  v.push(("header-only3", b"eJy".to_vec()));
+  // three layers: the inner text is itself a legacy payload
+  v.push(("triple", std_encode_nopad(good.as_bytes()).into_bytes()));
+  v.push(("triple-wide", std_encode_nopad("eJyAé".repeat(200).as_bytes()).into_bytes()));
+  v.into_iter().map(|(c, inner)| (c, std_encode_nopad(&inner))).collect()
 }
 
 fn service_json(endpoint: &str) -> String {
@@ -401,6 +461,38 @@ pub fn run(cx: &mut Cx, w: &World, rng: &mut Rng, budget: u64) {
     if cx.args.mine(k) {
       feed_service(cx, &service_json(e));
       feed_service(cx, &service_json(e).replace("\"RevocationBitmap2022\"", "[\"X\",\"RevocationBitmap2022\"]"));
+      if e.len() <= 8192 {
+        feed_service_in_document(cx, &service_json(e));
+      }
+    }
+  }
+  // layered (legacy doubly encoded) payloads whose inner text is hostile
+  cx.gen("layered");
+  let layered = layered_payloads(&rb);
+  for (class, p) in &layered {
+    k += 1;
+    if cx.args.mine(k) {
+      if !p.starts_with("ZUp") {
+        // the class does not reach the second layer; still a legitimate input
+        cx.rep.inc("layered_not_legacy_prefix");
+      }
+      cx.rep.inc("layered_payloads");
+      cx.rep.distinct("nontrivial", &format!("layered|{}", class));
+      let sj = service_json(&format!("data:application/octet-stream;base64,{}", p));
+      feed_service(cx, &sj);
+      feed_service_in_document(cx, &sj);
+    }
+  }
+  cx.gen("directed");
+  // encoded status lists are handed over as text directly: the same ladders after a plausible header
+  for n in [40usize, 300, 1100, 4200] {
+    for prefix in ["H4sIAAAAAAAAA", "", "eJy"] {
+      for l in gen::wide_ladders(prefix, 'A', n) {
+        k += 1;
+        if cx.args.mine(k) {
+          feed_encoded(cx, &l);
+        }
+      }
     }
   }
   feed_service(cx, &format!(r#"{{"id":"{}#rev","type":"RevocationBitmap2022","serviceEndpoint":["{}"]}}"#, ISSUER_DID, w.bitmap_endpoint));
@@ -421,7 +513,7 @@ pub fn run(cx: &mut Cx, w: &World, rng: &mut Rng, budget: u64) {
   // ---- mutation
   cx.gen("mutation");
   for _ in 0..budget {
-    match rng.below(6) {
+    match rng.below(7) {
       0 => {
         // mutate the compressed stream, re-encode
         let m = gen::mutate_bytes(rng, &g, &gz_with_flags(0x1e, &[1, 0, 0], b"x"));
@@ -455,6 +547,21 @@ pub fn run(cx: &mut Cx, w: &World, rng: &mut Rng, budget: u64) {
         let body = if rng.chance(1, 5) { gen::mutate_bytes(rng, &zlib(&m), b"\x78\x9c") } else { zlib(&m) };
         let enc = if rng.chance(1, 6) { std_encode_nopad(url_encode(&body).as_bytes()) } else { url_encode(&body) };
         feed_service(cx, &service_json(&format!("data:application/octet-stream;base64,{}", enc)));
+      }
+      5 => {
+        // legacy double encoding around a random mixed ASCII / multi-byte inner text
+        let n = [8usize, 60, 250, 260, 510, 1020, 1030, 4090, 5000][rng.usize(9)] + rng.usize(8);
+        let alphabet: &[u8] = if rng.bool() { b"ABCDEFGHIJKLMNOPQRSTUVWXYZabcdefghijklmnopqrstuvwxyz0123456789-_" } else { b"Aa0-_+/=. \n%" };
+        let sparse = [2u64, 16, 128, 1024][rng.usize(4)];
+        let head = gen::pick_s(rng, &["eJy", "eJw", "eJz", "eJ", "eJyzMmAAAwADKABr"]);
+        let inner = format!("{}{}", head, gen::wide_mix(rng, alphabet, n, sparse));
+        let inner = if rng.chance(1, 6) { gen::mutate_bytes(rng, inner.as_bytes(), b"\xff\xfe") } else { inner.into_bytes() };
+        cx.rep.inc("layered_payloads");
+        let sj = service_json(&format!("data:application/octet-stream;base64,{}", std_encode_nopad(&inner)));
+        feed_service(cx, &sj);
+        if rng.chance(1, 4) {
+          feed_service_in_document(cx, &sj);
+        }
       }
       _ => {
         let e = &endpoints[rng.usize(endpoints.len())];
